@@ -275,6 +275,9 @@ func (e *pvEnv) setEntry(m pvMsg) {
 		e.f.db.SaveEntity(db.NewEntity(name, nil, nil))
 	case "key":
 		e.f.db.SaveEntity(db.NewEntity(name, e.ident(m.EntryPk).Pub, nil))
+	case "badkey":
+		sizes := []int{1, 16, 31, 33, 64}
+		e.f.db.SaveEntity(db.NewEntity(name, randBytes(e.r, sizes[e.r.Intn(len(sizes))]), nil))
 	case "own":
 		// the accessory's own entity, key pair included (name 0 is the accessory's id)
 		e.f.db.SaveEntity(db.NewEntity(name, e.f.device.PublicKey(), e.f.device.PrivateKey()))
@@ -436,6 +439,9 @@ func genPvMsg(r *rand.Rand, conn, nconn int, e *int, started bool) pvMsg {
 			m.Entry = "none" // unknown controller
 		case 1:
 			m.Entry = "nokey"
+			if r.Intn(2) == 0 {
+				m.Entry = "badkey" // a stored key of a wrong size (/pairings add stores any): nothing verifies under it
+			}
 		case 2:
 			m.EntryPk = pk + 50 // stored key differs from the signer
 		case 3:
@@ -528,6 +534,9 @@ func pvCorpus() [][]pvStep {
 		{{0, start}, {0, g(func(m *pvMsg) { m.Intact = false })}, {0, genuineV3(0, 1, 0, 10)}},
 		{{0, start}, {0, pvMsg{Kind: "v3", Short: 7, Entry: "none"}}, {0, genuineV3(0, 1, 0, 10)}},
 		{{0, genuineV3(0, 1, 0, 10)}},
+		// a stored long-term key that is not 32 bytes long: a genuine-looking finish and one with a garbage signature
+		{{0, start}, {0, g(func(m *pvMsg) { m.Entry = "badkey" })}},
+		{{0, start}, {0, g(func(m *pvMsg) { m.Entry, m.SigKind, m.N = "badkey", "garbage", 3 })}, {0, start}, {0, genuineV3(0, 1, 0, 10)}},
 		// F16: the accessory itself is no controller (a finish naming it, signed with its own long-term key)
 		{{0, start}, {0, g(func(m *pvMsg) { m.Name, m.SigName, m.Entry, m.EntryPk, m.Signer = 0, 0, "own", 99, 98 })}},
 		// F42: a second exchange with the SAME controller key on the connection; the recorded finish of the first one is
